@@ -272,7 +272,14 @@ fn run() -> ! {
         for pair in pairs {
             match pair.as_rule() {
                 Rule::statement => {
-                    if let Some(inner_pair) = pair.into_inner().next() {
+                    let mut statement_pairs = pair.into_inner();
+                    if let Some(inner_pair) = statement_pairs.next() {
+                        // An end-of-line comment after the statement (`x = 1  // note`)
+                        let eol_comment = statement_pairs
+                            .next()
+                            .filter(|p| p.as_rule() == Rule::comment)
+                            .map(|p| format!("  {}", p.as_str()))
+                            .unwrap_or_default();
                         match inner_pair.as_rule() {
                             Rule::expression => {
                                 match pairs_to_expr_with_comments(inner_pair.into_inner()) {
@@ -281,6 +288,7 @@ fn run() -> ! {
                                             format_statement(&expr, None, is_first_statement);
                                         is_first_statement = false;
                                         formatted_output.push_str(&formatted);
+                                        formatted_output.push_str(&eol_comment);
                                         formatted_output.push('\n');
                                     }
                                     Err(e) => {
@@ -300,6 +308,7 @@ fn run() -> ! {
                                             format_statement(&output_expr, None, is_first_statement);
                                         is_first_statement = false;
                                         formatted_output.push_str(&formatted);
+                                        formatted_output.push_str(&eol_comment);
                                         formatted_output.push('\n');
                                     }
                                     Err(e) => {
@@ -311,6 +320,7 @@ fn run() -> ! {
                             Rule::comment => {
                                 // Preserve comments as-is
                                 formatted_output.push_str(inner_pair.as_str());
+                                formatted_output.push_str(&eol_comment);
                                 formatted_output.push('\n');
                             }
                             _ => {}
